@@ -396,6 +396,29 @@ func (g *GateResult) atomOf(cond ssa.Value) (*atom, bool) {
 	default:
 		return nil, false
 	}
+	// `check(n) != nil` with check an error-returning predicate of the module
+	if b.Op == token.EQL || b.Op == token.NEQ {
+		var call *ssa.Call
+		if c, ok := b.X.(*ssa.Call); ok && isNilConst(b.Y) {
+			call = c
+		} else if c, ok := b.Y.(*ssa.Call); ok && isNilConst(b.X) {
+			call = c
+		}
+		if call != nil && g.InModule != nil {
+			if f := call.Call.StaticCallee(); f != nil && g.InModule(f) && len(call.Call.Args) == 1 && len(f.Params) == 1 && len(f.Blocks) > 0 && isErrorType(call.Type()) {
+				if e := g.derive(call.Call.Args[0], 0); e != nil && len(e.ops) == 0 {
+					if ps := g.predicate(f); ps != nil {
+						a := &atom{e: e, op: token.EQL, pred: ps} // "the predicate holds" = a non-nil error
+						if (b.Op == token.EQL) != neg {
+							a.op = token.NEQ
+						}
+						return a, true
+					}
+				}
+			}
+			return nil, false
+		}
+	}
 	var a *atom
 	if c, ok := intConst(b.Y); ok {
 		if e := g.derive(b.X, 0); e != nil {
@@ -841,8 +864,12 @@ func (g *GateResult) predicate(f *ssa.Function) *predSets {
 	if !isIntType(p.Type()) {
 		return nil
 	}
+	// the result is a bool, or an error (then "true" stands for "returns a non-nil error")
+	isErr := false
 	if res := f.Signature.Results(); res.Len() != 1 {
 		return nil
+	} else if isErrorType(res.At(0).Type()) {
+		isErr = true
 	} else if b, ok := res.At(0).Type().Underlying().(*types.Basic); !ok || b.Kind() != types.Bool {
 		return nil
 	}
@@ -855,6 +882,22 @@ func (g *GateResult) predicate(f *ssa.Function) *predSets {
 		for _, in := range b.Instrs {
 			switch in.(type) {
 			case *ssa.BinOp, *ssa.UnOp, *ssa.Phi, *ssa.If, *ssa.Jump, *ssa.Return, *ssa.DebugRef, *ssa.Convert, *ssa.ChangeType, *ssa.IndexAddr, *ssa.Lookup, *ssa.Extract:
+			case *ssa.Call, *ssa.Alloc, *ssa.Store, *ssa.MakeInterface, *ssa.Slice:
+				// building an error value (fmt.Errorf("…%w", sentinel), errors.New): allowed in an
+				// error-returning predicate, and only that
+				if !isErr {
+					return nil
+				}
+				if c, ok := in.(*ssa.Call); ok {
+					if n := calleeName(c); n != "fmt.Errorf" && n != "errors.New" {
+						return nil
+					}
+				}
+				if st, ok := in.(*ssa.Store); ok {
+					if _, local := st.Addr.(*ssa.IndexAddr); !local {
+						return nil
+					}
+				}
 			default:
 				return nil
 			}
@@ -866,6 +909,26 @@ func (g *GateResult) predicate(f *ssa.Function) *predSets {
 	}
 	ps := &predSets{}
 	addVal := func(v ssa.Value, reach ZSet) bool {
+		if isErr {
+			switch x := v.(type) {
+			case *ssa.Const:
+				if x.Value == nil {
+					ps.F = ps.F.Union(reach)
+					return true
+				}
+			case *ssa.UnOp:
+				if loadedGlobal(x) != nil { // a sentinel variable (S1: initialised non-nil, never reassigned)
+					ps.T = ps.T.Union(reach)
+					return true
+				}
+			case *ssa.Call:
+				if n := calleeName(x); n == "fmt.Errorf" || n == "errors.New" {
+					ps.T = ps.T.Union(reach)
+					return true
+				}
+			}
+			return false
+		}
 		if c, ok := v.(*ssa.Const); ok && c.Value != nil {
 			if c.Value.String() == "true" {
 				ps.T = ps.T.Union(reach)
